@@ -122,7 +122,7 @@ def orPanicO {α : Type} (o : Option α) (k : α → Outcome) : Outcome :=
 @[rs_eval] theorem orPanicO_none {α} (k : α → Outcome) : orPanicO none k = .panic := rfl
 
 -- [errors] BEGIN
-rs_register_eqns enumFromKeys
+rs_register_eqns enumFromKeys fnPathArg fnPathParams fnPathArgs
 -- [errors] END
 
 end ClockBound.Rs
